@@ -1,13 +1,93 @@
-(* C14 -- property theorems only; each closed by `exact <lemma>`. *)
-From Coq Require Import ZArith List String Bool Arith.
-From SV Require Import C14.Tokens C14.Scan C14.ProofsScan.
+(* C14 -- property theorems only; each closed by `exact <lemma>`.
+   Models: Parse.v (syntax/parse.go), Scan.v (scanNumber, indentation), the
+   specification side is Print.v (rendering + "well parenthesised") and the
+   positional value of digit strings. *)
+From Coq Require Import ZArith List String Bool Arith Lia.
+From SV Require Import C14.Tokens C14.Parse C14.Print C14.Scan C14.ProofsScan
+  C14.ProofsBase C14.ProofsExpr C14.ProofsTop C14.ProofsLayout.
 Import ListNotations.
+Open Scope nat_scope.
 
-(* Integer literals: for every radix (decimal, 0x, 0o, 0b with either letter
-   case), every digit string of the lexical grammar -- of any length -- and every
-   following text that cannot extend the literal, the scanner delimits exactly
-   the literal, classifies it INT, and the decoded value is the positional value
-   of the digits over Z. *)
+(* ------------------------------------------------------------------------ *)
+(* (1) parse . print = id for expressions.
+   For ALL trees e that are well parenthesised (wp: every child binds at least
+   as tightly as its position requires or is a Paren node; redundant Paren
+   nodes anywhere) and all continuations `rest` that cannot extend e, parseExpr
+   returns exactly e -- including every position field and trailing-comma bit --
+   and leaves exactly `rest`.  Fuel: any n >= 40 * size e + 32. *)
+Theorem parse_print_expr :
+  forall (e : expr) (inParens : bool) (rest : list ptok) (n : nat),
+    wp e = true -> isx e = true ->
+    expr_rest_ok e inParens rest ->
+    40 * size e + 32 <= n ->
+    p_expr (parsers n) inParens (tokens e ++ rest) = Ok (e, rest).
+Proof. exact parse_print_expr_lemma. Qed.
+
+(* The same at every precedence level: parseTestPrec(prec) on the rendering of
+   a tree whose level is at least prec, followed by any token that is not an
+   operator of precedence >= prec, not a suffix, and not a stray `not`
+   (`not in` is fused into NOT_IN as the Go parser does: fz/fuse).  This is
+   "precedence and associativity for all operator pairs in all nestings". *)
+Theorem parse_print_prec :
+  forall (e : expr) (prec : nat) (rest : list ptok) (n : nat),
+    wp e = true -> isx e = true ->
+    prec <= 10 -> L_BIN prec <= lvl e -> ok_at prec rest ->
+    40 * size e + 24 <= n ->
+    p_testPrec (parsers n) prec (tokens e ++ rest) = Ok (e, fz prec rest).
+Proof. exact parse_print_prec_lemma. Qed.
+
+(* FileOptions.ParseExpr as the model runs it: the fuel 40 * #tokens + 40 always
+   suffices (every node of a well-formed tree contributes a token). *)
+Theorem parse_expr_print :
+  forall (e : expr) (pnl peof : pos) (nl : bool),
+    wf_expr e = true ->
+    parse_expr (tokens e ++ (if nl then [(NEWLINE, pnl)] else []) ++ [(EOF, peof)]) = Ok e.
+Proof. exact parse_expr_print_lemma. Qed.
+
+(* Each node's reported position (Span start as syntax.go computes it) is the
+   position of the first token of its text. *)
+Theorem span_start_is_first_token :
+  forall e : expr, wp e = true -> isx e = true -> peekpos (tokens e) = start e.
+Proof. exact start_first_token_lemma. Qed.
+
+(* (5, partial) parse_sound.  FULL STATEMENT (not proved):
+     forall n ts e rest, p_expr (parsers n) b ts = Ok (e, rest) ->
+       wp e = true /\ ts =(modulo fusing of NOT IN) tokens e ++ rest
+   i.e. every accepted token list is the rendering of the returned tree, so a
+   near-miss text (one token deleted / duplicated / swapped) is either rejected
+   or is itself the rendering of the tree it is given.  The check evaluates this
+   statement (Check.sound_ok, vm_compute) on every expression and every
+   accepted near-miss of every run.  PROVED PART: rendering is injective on
+   well-formed trees -- two different trees never share a text, hence (with
+   parse_print_expr) the tree returned for a rendered text is the only tree
+   that renders to it. *)
+Theorem parse_sound_partial :
+  forall e1 e2 : expr,
+    wf_expr e1 = true -> wf_expr e2 = true -> tokens e1 = tokens e2 -> e1 = e2.
+Proof. exact print_injective_lemma. Qed.
+
+(* premises are satisfiable:  a + b * -c not in [x for x in y if lambda: 3]  *)
+Definition ex_tokens : list ptok :=
+  [(IDENT "a",(1,1)); (PLUS,(1,3)); (IDENT "b",(1,5)); (STAR,(1,7)); (MINUS,(1,8)); (IDENT "c",(1,9));
+   (NOT,(1,11)); (IN,(1,15)); (LBRACK,(1,18)); (IDENT "x",(1,19)); (FOR,(1,21)); (IDENT "x",(1,25));
+   (IN,(1,27)); (IDENT "y",(1,30)); (IF,(1,32)); (LAMBDA,(1,35)); (COLON,(1,41)); (INT 3,(1,43));
+   (RBRACK,(1,44)); (NEWLINE,(1,45)); (EOF,(2,1))]%Z.
+Definition ex_tree : expr :=
+  Eval vm_compute in match parse_expr ex_tokens with Ok e => e | _ => EmptyTuple nopos nopos end.
+Definition ex_rest : list ptok := [(NEWLINE,(1,45)); (EOF,(2,1))]%Z.
+Example parse_print_expr_ex :
+  (parse_expr ex_tokens = Ok ex_tree) /\ (wp ex_tree = true) /\ (isx ex_tree = true) /\
+  (expr_rest_ok ex_tree false ex_rest) /\ (lvl ex_tree = L_BIN 3) /\ (ok_at 3 ex_rest) /\
+  (wf_expr ex_tree = true) /\ (size ex_tree <= List.length (tokens ex_tree)) /\
+  (map fst (tokens ex_tree ++ ex_rest) = map fst ex_tokens).
+Proof.
+  split; [vm_compute; reflexivity|]. split; [vm_compute; reflexivity|]. split; [vm_compute; reflexivity|].
+  split; [split; [reflexivity|discriminate]|]. split; [reflexivity|]. split; [reflexivity|].
+  split; [vm_compute; reflexivity|]. split; [vm_compute; repeat constructor|vm_compute; reflexivity].
+Qed.
+
+(* ------------------------------------------------------------------------ *)
+(* (2) integer literals of any size in every radix *)
 Theorem int_literal_exact :
   forall (r : radix) (pre ds rest : list Z),
     In pre (prefixes r) -> wf_digits r ds -> stops r rest ->
@@ -15,7 +95,6 @@ Theorem int_literal_exact :
     = (NInt (positional (base r) (map digitval ds)), rest).
 Proof. exact int_literal_exact_lemma. Qed.
 
-(* premises are satisfiable: 0XfF followed by " +" *)
 Example int_literal_exact_hex :
   In [48; 88]%Z (prefixes Hex) /\ wf_digits Hex [102; 70]%Z /\ stops Hex [32; 43]%Z /\
   scan_number true ([48; 88] ++ [102; 70] ++ [32; 43])%Z = (NInt 255, [32; 43]%Z).
@@ -23,3 +102,79 @@ Proof.
   split; [right; left; reflexivity|]. split; [split; [discriminate|split; [reflexivity|discriminate]]|].
   split; [split; [reflexivity|discriminate]|]. vm_compute. reflexivity.
 Qed.
+
+(* ------------------------------------------------------------------------ *)
+(* (3) layout: INDENT / OUTDENT / NEWLINE synthesis re-nests every block
+   structure, for all consistent indentation strings (spaces and tabs), with
+   blank / comment lines anywhere and continuation lines (inside brackets or
+   after a backslash) attached to any logical line.  See ProofsLayout.v for
+   blk, render_forest, noisy, events, squash, nest. *)
+Theorem layout_roundtrip :
+  forall (A : Type) (f : list (blk A)) (ls : list (pline A)),
+    wf_forest f = true -> noisy (render_forest [] f) ls ->
+    exists evs,
+      layout ls true = LOk evs /\ squash evs = events f /\
+      forall fuel, List.length (events f) < fuel -> nest fuel (squash evs) = Some (map erase f, []).
+Proof. exact layout_roundtrip_lemma. Qed.
+
+(* the same for a file without a final newline *)
+Theorem layout_roundtrip_nofinal :
+  forall (A : Type) (f : list (blk A)) (ls : list (pline A)),
+    wf_forest f = true -> noisy (render_forest [] f) ls ->
+    exists evs,
+      layout ls true = LOk evs /\ squash evs = events f /\
+      (forall ls0 l, ls = ls0 ++ [l] -> is_content l = true ->
+         layout ls false = LOk (drop_last_nl evs)) /\
+      (forall ls0 l b tb, ls = ls0 ++ l :: b :: tb -> is_content l = true -> noise_blank b ->
+         Forall blank_line tb -> layout ls false = LOk evs).
+Proof. exact layout_roundtrip_nofinal_lemma. Qed.
+
+(* consistent extension of the white-space string (any mix of spaces and tabs)
+   always gives a strictly larger column *)
+Theorem indent_col_extend :
+  forall ws ext, ext <> [] -> indent_col ws < indent_col (ws ++ ext).
+Proof. exact indent_col_extend_lemma. Qed.
+
+(* the indentation stack never underflows *)
+Theorem stack_never_underflows :
+  (forall (A : Type) stk col (d : list (ev A)) s,
+     stk_ok stk -> line_start stk col = LOk (d, s) -> stk_ok s /\ hd 0 s = col) /\
+  (forall (A : Type) stk col, stk_ok stk -> @line_start A stk col <> LPanic) /\
+  (forall (A : Type) (ls : list (pline A)) fn, layout ls fn <> LPanic).
+Proof. exact stack_never_underflows_lemma. Qed.
+
+(* a dedent to a column that matches no enclosing block is an error; to one
+   that does, exactly the blocks above it are closed *)
+Theorem inconsistent_dedent_rejected :
+  forall (A : Type) (pre post : list (pline A)) l stk fn,
+    stack_after [0] pre = Some stk ->
+    plain l ->
+    indent_col (l_ws l) < hd 0 stk -> ~ In (indent_col (l_ws l)) stk ->
+    layout (pre ++ l :: post) fn = LErr.
+Proof. exact inconsistent_dedent_rejected_lemma. Qed.
+
+Theorem dedent_line_start :
+  (forall (A : Type) stk col,
+     stk_ok stk -> col < hd 0 stk -> ~ In col stk -> @line_start A stk col = LErr) /\
+  (forall (A : Type) stk col,
+     stk_ok stk -> In col stk ->
+     exists k s above,
+       @line_start A stk col = LOk (repeat EvOutdent k, s) /\ hd 0 s = col /\ stk_ok s /\
+       stk = above ++ s /\ List.length above = k /\ Forall (fun x => col < x) above).
+Proof. exact dedent_line_start_lemma. Qed.
+
+Example layout_ex :
+  let f := [Compound 1 [false; false] [Simple 2; Compound 3 [true] [Simple 4]]; Simple 5] in
+  wf_forest f = true /\ layout (render_forest [] f) true = LOk (events f) /\
+  stk_ok [8; 2; 0] /\ @line_start nat [8; 2; 0] 4 = LErr.
+Proof. cbn zeta. split; [reflexivity|]. split; [vm_compute; reflexivity|]. split; [cbn; lia|reflexivity]. Qed.
+
+(* (4) parse_print_stmt -- NOT PROVED.  Full statement: for every concrete
+   statement tree c (simple-statement lines with optional trailing `;`, inline
+   or indented suites, if/elif/else, for, while, def, load) whose expressions are
+   well parenthesised, p_file (parsers n) (tokens_c c ++ [EOF]) = Ok (flatten c)
+   for n >= 40 * size.  The statement parser is modelled (Parse.v stmt_body ..
+   file_body) and tied to the real parser by the correspondence check on every
+   run (generated files of all statement forms, depth 6); the expression
+   theorem above covers every expression inside statements; layout_roundtrip
+   covers the NEWLINE/INDENT/OUTDENT structure the suites consume. *)
